@@ -28,12 +28,15 @@ var fns = map[string]interface{}{
 	"CallPure": tx.CallPure, "CallPartial": tx.CallPartial, "CallTuple": tx.CallTuple,
 	"Pop8": tx.Pop8, "Pop64": tx.Pop64, "Lz32": tx.Lz32, "Lz64": tx.Lz64, "Tz64": tx.Tz64, "Tz32": tx.Tz32, "Tz8": tx.Tz8,
 	"Len32": tx.Len32, "Len64": tx.Len64,
+	"Loop": tx.Loop, "CallsLoop": tx.CallsLoop, "SumSquares": tx.SumSquares, "BreakContinue": tx.BreakContinue, "NestedLoops": tx.NestedLoops,
+	"Find": tx.Find, "EarlyReturn": tx.EarlyReturn, "TwoLoops": tx.TwoLoops, "WhileShift": tx.WhileShift,
 	"Counter.Peek": (*tx.Counter).Peek, "Counter.Bump": (*tx.Counter).Bump, "NewCounter": tx.NewCounter,
 }
 
 // functions that index a slice: nthZ converts the index to a unary number, so evaluating the generated definition on
 // an index of 2^62 inside Coq does not terminate in practice (the definitions are meant to be reasoned about)
-var smallIndex = map[string]bool{"Idx": true, "IdxU8": true, "SafeIdx": true, "TwoReads": true, "CallPartial": true}
+var smallIndex = map[string]bool{"Idx": true, "IdxU8": true, "SafeIdx": true, "TwoReads": true, "CallPartial": true,
+	"Loop": true, "CallsLoop": true, "EarlyReturn": true} // ... and loop bounds: the fuel of the test is 1200
 
 func grid(t reflect.Type, small bool) []reflect.Value {
 	var out []reflect.Value
